@@ -125,6 +125,10 @@ func LinkChildrenToParents(root Role) {
 
 func MakeDisabledRoleCallback(r Role) func(stage template.Stage, err error) error {
 	return func(stage template.Stage, err error) error {
+		if err != nil {
+			// a template error (also one in the `enabled` expression itself) is an error, not a disabled role
+			return err
+		}
 		if stage == template.STAGE0 { // only `enabled` has been processed so far
 			if !r.IsEnabled() {
 				rde := &template.RoleDisabledError{RolePath: r.GetPath()}
